@@ -27,28 +27,29 @@ def groups(n):
     """(group name, spec, thorough?) for length n. The float data path is not separable from the length for CBMC, and
     several float-heavy kernels (std/var/skew/kurt, zscore, minmaxnorm, cov/corr, the regressions) in one formula scale
     worse than linearly: at N >= 2 they are run at most two per harness."""
+    resid = [(f[3:], S(two=[f]), False) for f in REGX_B]     # one per harness: three together cost 3-6 times the sum
     if n == 0:
-        # empty input: the callbacks are never invoked, so ts_vcov is not restricted here
-        return [("vfeat", S(one=VFEAT_A + VFEAT_B), False), ("feat", S("int", one=FEAT_A + FEAT_B), False),
-                ("cmp", S(full=True, one=CMP), False), ("norm", S(one=NORM), False),
-                ("binary", S(two=["ts_vcorr"], vcov="any"), False), ("reg", S(one=REG), False),
-                ("regx", S(two=REGX_A + REGX_B, allf=True), False)]
+        # empty input: the callbacks are never invoked (cheap; ts_vcov is not restricted here)
+        return [("valid", S(one=VFEAT_A + VFEAT_B + NORM + REG, two=["ts_vcorr"] + REGX_A + REGX_B, allf=True, vcov="any"), False),
+                ("feat", S("int", one=FEAT_A + FEAT_B), False),
+                ("cmp", S(full=True, one=CMP), False)]
     if n == 1:
-        return [("vfeat", S(one=VFEAT_A + VFEAT_B), False), ("feat", S("int", one=FEAT_A + FEAT_B), False),
+        return [("vfeat_a", S(one=VFEAT_A), False), ("vfeat_b", S(one=VFEAT_B), False),
+                ("feat_a", S("int", one=FEAT_A), False), ("feat_b", S("int", one=FEAT_B), False),
                 ("cmp", S(full=True, one=CMP, rank=True), False), ("norm", S(one=NORM), False),
                 ("binary", S(two=["ts_vcorr"], vcov="eff1"), False), ("reg", S(one=REG), False),
                 ("regx_a", S(two=REGX_A, allf=True), False), ("regx_b", S(two=REGX_B), False)]
     if n == 2:
         return [("vfeat_a", S(one=VFEAT_A), False), ("vfeat_b1", S(one=VFEAT_B[:2]), False), ("vfeat_b2", S(one=VFEAT_B[2:]), False),
                 ("feat_a", S("int", one=FEAT_A), False), ("feat_b1", S("int", one=FEAT_B[:2]), False), ("feat_b2", S("int", one=FEAT_B[2:]), False),
-                ("cmp", S(full=True, one=CMP), False), ("vrank", S(full=True, rank=True), False),
+                ("cmp_a", S(full=True, one=CMP[:2]), False), ("cmp_b", S(full=True, one=CMP[2:]), False),
+                ("vrank", S(full=True, rank=True), False),
                 ("norm", S(one=NORM), False), ("binary", S(two=["ts_vcorr"], vcov="eff1"), False),
-                ("reg", S(one=REG), False), ("regx_a", S(two=REGX_A, allf=True), False),
-                ("regx_b", S(two=REGX_B), False)]
+                ("reg", S(one=REG), False), ("regx_a", S(two=REGX_A, allf=True), False)] + resid
     cheap = [("vfeat_a", S(one=VFEAT_A), n > 3), ("feat_a", S("int", one=FEAT_A), n > 3),
              ("cmp_a", S(full=True, one=CMP[:2]), n > 3), ("cmp_b", S(full=True, one=CMP[2:]), n > 3),
-             ("vrank", S(full=True, rank=True), n > 3), ("regx_a", S(two=REGX_A, allf=True), n > 3),
-             ("regx_b", S(two=REGX_B), n > 3)]
+             ("vrank", S(full=True, rank=True), n > 3), ("regx_a", S(two=REGX_A, allf=True), n > 3)] + \
+            [(g, sp, n > 3) for g, sp, _ in resid]
     # float-heavy entry points: two per harness (four per harness is 4-10 times the cost of two pairs)
     heavy = [("vstd_vvar", S(one=VFEAT_B[:2]), False), ("vskew_vkurt", S(one=VFEAT_B[2:]), False),
              ("std_var", S("int", one=FEAT_B[:2]), False), ("skew_kurt", S("int", one=FEAT_B[2:]), False),
